@@ -1,3 +1,4 @@
+import TmcgProps.C14Live
 import TmcgProofs.RbcLocal
 import TmcgProofs.RbcGlobal
 /-
